@@ -82,7 +82,9 @@ PostS == Proj(config', hist', status', ctx', output', errv')
 
 Props == [C01 |-> C01(PreS, lastStep', PostS, out'),
           C02 |-> C02(PreS, lastStep', PostS, out'),
-          C03 |-> C03(PreS, lastStep', PostS, out')]
+          C03 |-> C03(PreS, lastStep', PostS, out'),
+          C10 |-> C10(PreS, lastStep', PostS, out', Engine),
+          C11 |-> C11(PreS, lastStep', PostS, out', Engine)]
 
 Emit == PrintT(ToJson([mi |-> mi, from |-> PreS, step |-> lastStep', to |-> PostS, dirty |-> dirty',
                        out |-> out', prop |-> Props]))
